@@ -9,6 +9,7 @@ URLS = [b'http://u1.test', b'http://u1.test:8080', b'http://u1.test/p', b'http:/
         b'https://u3.test', b'https://u3.test:8443/p']
 DNS = {'u1.test': '10.0.2.1', 'u2.test': '10.0.2.2', 'u3.test': '10.0.2.3'}
 LITERAL = b'HTTP/1.1 200 OK\r\nContent-Length: 7\r\n\r\nliteral'
+BIGBODY = bytes((i * 7 + i // 251) % 256 for i in range(100000))
 
 
 def stamp(oid):
@@ -67,6 +68,9 @@ REQS = [
     # header names are case-insensitive: the Host field spelled as some clients / HTTP/2 front ends spell it
     ('GET-host-lower', lambda p: b'GET %s HTTP/1.1\r\nhost: front.test\r\nx-a: b\r\n\r\n' % p, b'GET', b''),
     ('GET-host-upper', lambda p: b'GET %s HTTP/1.1\r\nHOST: front.test\r\nX-A: b\r\n\r\n' % p, b'GET', b''),
+    # a body far larger than one send() on the upstream socket takes (4 KiB kernel buffers)
+    ('BIGPOST', lambda p: b'POST %s HTTP/1.1\r\nHost: front.test\r\nContent-Length: 100000\r\nX-A: b\r\n\r\n' % p + BIGBODY,
+     b'POST', None),
     # an upgrade request is a request like any other as far as routing goes (the web server keeps a separate
     # route table per protocol: websocket upgrades are looked up in their own table)
     ('UPGRADE', lambda p: b'GET %s HTTP/1.1\r\nHost: front.test\r\nX-A: b\r\nConnection: Upgrade\r\nUpgrade: websocket\r\n'
@@ -83,7 +87,7 @@ def scenarios(tier):
             fa = ['--threadless', '--enable-reverse-proxy'] + (['--rewrite-host-header'] if rewrite else [])
             for path in PATHS:
                 for (rname, mk, method, body) in REQS:
-                    if tier == 'quick' and rname in ('CHUNKED', 'NOHOST', 'UPGRADE', 'GET-host-lower', 'GET-host-upper') and not tname.startswith('s1-0') and tname not in ('mixed', 's2-disjoint', 'dyn-url'):
+                    if tier == 'quick' and rname in ('CHUNKED', 'NOHOST', 'UPGRADE', 'GET-host-lower', 'GET-host-upper', 'BIGPOST') and not tname.startswith('s1-0') and tname not in ('mixed', 's2-disjoint', 'dyn-url'):
                         continue
                     script = [('send', mk(path)), ('wait_idle',), ('close',)]
                     matching = []
@@ -102,7 +106,10 @@ def scenarios(tier):
                         origins=origins(), dns=DNS, kinds='D', horizon=400,
                         features={'table': tname.split('-')[0], 'rewrite': rewrite, 'request': rname,
                                   'n_matching': len(matching), '_matching': matching, '_path': path,
-                                  '_method': method, '_body': body, '_bound': 2}))
+                                  '_method': method, '_body': BIGBODY if body is None else body, '_bound': 2 if body is not None else 1}))
+                    if body is None:
+                        out[-1].features['_sockbuf'] = 4096
+                        out[-1].horizon = 4000
     # follow-up request on a keep-alive connection whose route names another port of the same host
     # (and another host): the SECOND request must go to the second route's host and port
     for tname, static in (('fu-samehost', [(r'/a$', [URLS[0]]), (r'/b$', [URLS[1]])]),
